@@ -64,6 +64,7 @@ const (
 	opOption       = "Option"
 	opCSP          = "CSPCompatible"
 	opDelims       = "Delims"
+	opFuncs        = "Funcs"
 	opExec         = "Execute"
 	opExecTmpl     = "ExecuteTemplate"
 	opExecHTML     = "ExecuteToHTML"
